@@ -9,7 +9,7 @@ OpenSSL semantics.  The matrix is exhaustive in both tiers; thorough adds ET/LT 
 full HttpClient / HttpServer matrices.
 """
 import os, json
-from vlib.core import Ctx, load_known_findings
+from vlib.core import Ctx, ModelBuildError, load_known_findings
 
 ID = "C07"
 MODULES = ["IoraModel.Props.C07"]
@@ -44,6 +44,10 @@ OBLIGATIONS = [
      "statement": "serverTls.verifyPeer => SSL_VERIFY_PEER | SSL_VERIFY_FAIL_IF_NO_PEER_CERT and the store is the configured CA"},
     {"id": "C07_T5_admits", "theorem": "Iora.C07.T5_server_admits_only_valid", "kind": "proved",
      "statement": "forall H assumed: a verifyPeer server admits only clients presenting a certificate that chains, is in time and is owned"},
+    {"id": "C07_T3_http_client", "theorem": "Iora.C07.T3_http_client_verify", "kind": "proved",
+     "statement": "HttpClient: TlsConfig.verifyPeer => SSL_VERIFY_PEER, and a configured caFile is the verification store (else default paths)"},
+    {"id": "C07_T5_http_server", "theorem": "Iora.C07.T5_http_server_flags", "kind": "proved",
+     "statement": "HttpServer: requireClientCert => SSL_VERIFY_PEER | SSL_VERIFY_FAIL_IF_NO_PEER_CERT on the listener's context"},
     {"id": "C07_T6_client", "theorem": "Iora.C07.T6_client_matrix", "kind": "proved",
      "statement": "forall H assumed, every one of the 3600 client cells: announced <-> Spec.cliAdmissible, version >= 1.2, never plain"},
     {"id": "C07_T6_server", "theorem": "Iora.C07.T6_server_matrix", "kind": "proved",
@@ -54,6 +58,8 @@ OBLIGATIONS = [
      "statement": "forall event sequences: a TLS session never writes application bytes raw; nothing is announced or written before SSL_do_handshake returned 1"},
     {"id": "C07_T8_requested", "theorem": "Iora.C07.T8_requested_tls_never_clear", "kind": "proved",
      "statement": "forall configuration, request != None, event sequence: no application byte goes out in clear (plan + session machine)"},
+    {"id": "C07_T8_listener", "theorem": "Iora.C07.T8_listener_tls_never_clear", "kind": "proved",
+     "statement": "same for sessions accepted on a listener requested with TLS"},
     {"id": "C07_H_consistent", "theorem": "Iora.C07.assumptions_consistent", "kind": "proved",
      "statement": "the hypotheses about OpenSSL (Handshake.Assumed) are satisfiable: the executable reference is an instance"},
 ]
@@ -93,74 +99,97 @@ def case(cat, op, **kw):
 
 
 def gen_cases(ctx, rng):
+    """The matrix is exhaustive in both tiers (default engine options, async API); quick adds seeded samples of the
+    other API / epoll / batching variants and of the HTTP front ends, thorough runs EVERY variant over the whole matrix."""
     quick = ctx.tier == "quick"
     cs = [case("certtable", "certtable")]
-    # ---- the client matrix, exhaustive (TLS peers: every certificate x ceiling; other peers: certificate irrelevant)
-    for verify in (0, 1):
-        for trust in TRUSTS:
-            for target in ("name", "ip"):
-                for scert in SCERTS:
-                    for ceil in CEILS:
-                        cs.append(case("cli-matrix", cli(verify=verify, trust=trust, scert=scert, ceil=ceil, target=target)))
-                for peer in ("plain", "garbage", "badhello"):
-                    cs.append(case("cli-nontls", cli(verify=verify, trust=trust, peer=peer, target=target, ceil="12")))
-    # configured minimum x peer ceiling
-    for minv in MINS:
-        for ceil in CEILS:
-            cs.append(case("cli-min", cli(minv=minv, ceil=ceil)))
-            cs.append(case("srv-min", srv(minv=minv, ceil=ceil)))
-    for minv in ("1", "768", "-3"):
-        cs.append(case("cli-min", cli(minv=minv, ceil="11")))
-        cs.append(case("srv-min", srv(minv=minv, ceil="11")))
-    # trust given as a directory / a file that does not load
-    for trust in ("path", "badfile", "missing"):
+    base = ("async", 1, 0)
+    all_variants = [(api, et, b) for api in ("async", "sync") for (et, b) in ((1, 0), (0, 0), (0, 1), (1, 1))]
+    variants = [base] if quick else all_variants
+
+    def client_matrix(api, et, batch, tag):
+        out = []
         for verify in (0, 1):
-            cs.append(case("cli-trustform", cli(verify=verify, trust=trust)))
-            cs.append(case("srv-trustform", srv(verify=verify, trust=trust, ccert="cvalid")))
-    # ---- the server matrix, exhaustive
-    for verify in (0, 1):
-        for trust in TRUSTS:
-            for own in SCERTS:
-                for ccert in CCERTS:
-                    for ceil in CEILS:
-                        cs.append(case("srv-matrix", srv(verify=verify, trust=trust, own=own, ccert=ccert, ceil=ceil)))
-            for ceil in ("12", "13"):
-                cs.append(case("srv-matrix", srv(verify=verify, trust=trust, ccert="cexpired", ceil=ceil)))
-            for peer in ("plain", "garbage", "badhello"):
-                cs.append(case("srv-nontls", srv(verify=verify, trust=trust, peer=peer)))
-    for own in ("nocert", "unreadable"):
-        cs.append(case("srv-owncert", srv(own=own)))
-    # ---- request mode x enabled x defaultMode (F18: TLS requested without the matching context)
-    for req in ("none", "server", "client"):
-        for enabled in (0, 1):
-            for defmode in ("none", "server", "client"):
-                cs.append(case("mode-connect", cli(verify=0, trust="none", peer="dual", target="ip", enabled=enabled, defmode=defmode, req=req)))
-                for peer in ("plain", "tls"):
-                    cs.append(case("mode-listen", srv(peer=peer, enabled=enabled, defmode=defmode, req=req)))
-    # ---- synchronous API
-    sync = [cli(api="sync", verify=v, trust=t, scert=s, target=g) for v in (0, 1) for t in ("right", "wrong") for s in ("valid", "wrongname", "expired", "self")
-            for g in ("name", "ip")]
+            for trust in TRUSTS:
+                for target in ("name", "ip"):
+                    for scert in SCERTS:
+                        for ceil in CEILS:
+                            out.append(case("cli-matrix" + tag, cli(api=api, verify=verify, trust=trust, scert=scert, ceil=ceil, target=target, et=et, batch=batch)))
+                    for peer in ("plain", "garbage", "badhello"):
+                        out.append(case("cli-nontls" + tag, cli(api=api, verify=verify, trust=trust, peer=peer, target=target, ceil="12", et=et, batch=batch)))
+        for minv in MINS:
+            for ceil in CEILS:
+                out.append(case("cli-min" + tag, cli(api=api, minv=minv, ceil=ceil, et=et, batch=batch)))
+        for minv in ("1", "768", "-3"):
+            out.append(case("cli-min" + tag, cli(api=api, minv=minv, ceil="11", et=et, batch=batch)))
+        for trust in ("path", "badfile", "missing"):
+            for verify in (0, 1):
+                out.append(case("cli-trustform" + tag, cli(api=api, verify=verify, trust=trust, et=et, batch=batch)))
+        # request mode x enabled x defaultMode (F18: TLS requested without the matching context)
+        for req in ("none", "server", "client"):
+            for enabled in (0, 1):
+                for defmode in ("none", "server", "client"):
+                    out.append(case("mode-connect" + tag, cli(api=api, verify=0, trust="none", peer="dual", target="ip", enabled=enabled, defmode=defmode, req=req,
+                                                              et=et, batch=batch)))
+        return out
+
+    def server_matrix(et, batch, tag):
+        out = []
+        for verify in (0, 1):
+            for trust in TRUSTS:
+                for own in SCERTS:
+                    for ccert in CCERTS:
+                        for ceil in CEILS:
+                            out.append(case("srv-matrix" + tag, srv(verify=verify, trust=trust, own=own, ccert=ccert, ceil=ceil, et=et, batch=batch)))
+                for ceil in ("12", "13"):
+                    out.append(case("srv-matrix" + tag, srv(verify=verify, trust=trust, ccert="cexpired", ceil=ceil, et=et, batch=batch)))
+                for peer in ("plain", "garbage", "badhello"):
+                    out.append(case("srv-nontls" + tag, srv(verify=verify, trust=trust, peer=peer, et=et, batch=batch)))
+        for minv in MINS:
+            for ceil in CEILS:
+                out.append(case("srv-min" + tag, srv(minv=minv, ceil=ceil, et=et, batch=batch)))
+        for minv in ("1", "768", "-3"):
+            out.append(case("srv-min" + tag, srv(minv=minv, ceil="11", et=et, batch=batch)))
+        for trust in ("path", "badfile", "missing"):
+            for verify in (0, 1):
+                out.append(case("srv-trustform" + tag, srv(verify=verify, trust=trust, ccert="cvalid", et=et, batch=batch)))
+        for own in ("nocert", "unreadable"):
+            out.append(case("srv-owncert" + tag, srv(own=own, et=et, batch=batch)))
+        for req in ("none", "server", "client"):
+            for enabled in (0, 1):
+                for defmode in ("none", "server", "client"):
+                    for peer in ("plain", "tls"):
+                        out.append(case("mode-listen" + tag, srv(peer=peer, enabled=enabled, defmode=defmode, req=req, et=et, batch=batch)))
+        return out
+
+    for api, et, batch in variants:
+        tag = "" if (api, et, batch) == base else "/%s,et=%d,batch=%d" % (api, et, batch)
+        cs += client_matrix(api, et, batch, tag)
+        if api == "async":
+            cs += server_matrix(et, batch, tag)
     if quick:
-        rng.shuffle(sync)
-        sync = sync[:16]
-    else:
-        sync += [cli(api="sync", verify=v, trust=t, scert=s, ceil=c, target=g) for v in (0, 1) for t in TRUSTS for s in SCERTS for c in ("11", "12") for g in ("name", "ip")]
-        sync += [cli(api="sync", verify=0, trust="none", peer="dual", target="ip", enabled=e, defmode=d, req=r) for e in (0, 1) for d in ("none", "server", "client")
-                 for r in ("none", "server", "client")]
-    cs += [case("cli-sync", o) for o in sync]
+        # seeded sample of the other variants
+        ext = []
+        for api, et, batch in all_variants[1:]:
+            ext += client_matrix(api, et, batch, "/variant")
+            if api == "async":
+                ext += server_matrix(et, batch, "/variant")
+        rng.shuffle(ext)
+        cs += ext[:60]
     # ---- HttpClient
     hc = []
     for verify in (0, 1):
         for ca in TRUSTS:
             for sys in ("empty", "right", "wrong"):
-                for scert in ("valid", "self", "expired", "wrongname"):
+                for scert in SCERTS:
                     for url in ("name", "ip"):
-                        hc.append(http(verify=verify, ca=ca, sys=sys, scert=scert, url=url))
-    hc_extra = [http(verify=v, ca="right", ceil=c, peer=p) for v in (0, 1) for c in CEILS for p in ("tls", "plain", "garbage")]
-    hc_extra += [http(verify=1, ca="right", scert="mismatch", ceil="12"), http(verify=0, ca="none", scert="mismatch", ceil="12")]
+                        for ceil in (("13",) if quick else CEILS):
+                            hc.append(http(verify=verify, ca=ca, sys=sys, scert=scert, url=url, ceil=ceil))
+    hc_extra = [http(verify=v, ca="right", ceil=c, peer=p) for v in (0, 1) for c in CEILS for p in ("tls", "plain", "garbage", "badhello")]
     hc_fixed = [http(verify=1, ca="right", scert=s, url=u) for s in ("valid", "wrongname", "expired", "self") for u in ("name", "ip")] + \
                [http(verify=1, ca="none", sys="right", scert="wrongname"), http(verify=1, ca="wrong", sys="right"), http(verify=1, ca="right", sys="wrong"),
-                http(verify=0, ca="none", scert="self"), http(verify=1, ca="right", peer="plain"), http(verify=1, ca="right", ceil="11")]
+                http(verify=0, ca="none", scert="self"), http(verify=1, ca="right", peer="plain"), http(verify=1, ca="right", ceil="11"),
+                http(verify=1, ca="right", scert="mismatch", ceil="12"), http(verify=0, ca="none", scert="mismatch", ceil="12")]
     if quick:
         rng.shuffle(hc)
         hc = hc[:30]
@@ -168,39 +197,14 @@ def gen_cases(ctx, rng):
         hc_extra = hc_extra[:6]
     cs += [case("http", o) for o in hc_fixed + hc + hc_extra]
     # ---- HttpServer
-    hs = [hsrv(require=r, ca=ca, own=own, ccert=cc) for r in (0, 1) for ca in TRUSTS for own in ("valid", "expired", "mismatch") for cc in CCERTS]
-    hs += [hsrv(peer=p) for p in ("plain", "garbage")] + [hsrv(ceil=c) for c in CEILS]
+    hs = [hsrv(require=r, ca=ca, own=own, ccert=cc, ceil=ceil) for r in (0, 1) for ca in TRUSTS for own in SCERTS for cc in CCERTS + ["cexpired"]
+          for ceil in (("13",) if quick else ("12", "13"))]
+    hs += [hsrv(peer=p) for p in ("plain", "garbage", "badhello")] + [hsrv(ceil=c) for c in CEILS]
     hs_fixed = [hsrv(require=1, ca="right", ccert=cc) for cc in CCERTS] + [hsrv(require=1, ca="none", ccert="cvalid"), hsrv(require=0, ca="none")]
     if quick:
         rng.shuffle(hs)
         hs = hs[:10]
     cs += [case("hsrv", o) for o in hs_fixed + hs]
-    # ---- edge-/level-triggered epoll x batching
-    variants = [(0, 0), (0, 1), (1, 1)]
-    ext = []
-    for et, batch in variants:
-        for verify in (0, 1):
-            for trust in ("right", "wrong"):
-                for scert in SCERTS:
-                    for target in ("name", "ip"):
-                        ext.append(cli(verify=verify, trust=trust, scert=scert, target=target, et=et, batch=batch, ceil="12" if scert == "mismatch" else "13"))
-                for ccert in CCERTS:
-                    ext.append(srv(verify=verify, trust=trust, ccert=ccert, et=et, batch=batch))
-    if quick:
-        rng.shuffle(ext)
-        ext = ext[:24]
-    else:
-        for et, batch in variants:
-            for verify in (0, 1):
-                for trust in TRUSTS:
-                    for scert in SCERTS:
-                        for ceil in CEILS:
-                            ext.append(cli(verify=verify, trust=trust, scert=scert, ceil=ceil, et=et, batch=batch))
-                    for own in ("valid", "self"):
-                        for ccert in CCERTS + ["cexpired"]:
-                            for ceil in CEILS:
-                                ext.append(srv(verify=verify, trust=trust, own=own, ccert=ccert, ceil=ceil, et=et, batch=batch))
-    cs += [case("engine-variant", o) for o in ext]
     return cs
 
 
@@ -330,14 +334,25 @@ def run(ctx: Ctx):
     hb = ctx.build_harness("harness/c07_tls.cpp", sanitize=True, opt="-O0")
     dist, outcomes = {}, {"connected": 0, "refused": 0, "handshake-failed": 0, "plain": 0}
     finding_cells = []
-    if hb and os.path.exists(ctx.model_bin()):
+    margv = None
+    try:
+        margv = ctx.model_argv("tls")
+    except ModelBuildError:
+        pass        # recorded as a violation; the implementation-only monitors below still run
+    if hb:
         corpus = load_corpus()
         gen = gen_cases(ctx, rng.fork("cells"))
         first, rest = gen[:1], gen[1:]
         rng.fork("order").shuffle(rest)
         cases = first + corpus + rest
         env = {"C07_WORK": os.path.join(ctx.work, "certs")}
-        res = ctx.lockstep("tls", hb, cases + [case("fires", "fires")], timeout=1500, impl_env=env)
+        allc = cases + [case("fires", "fires")]
+        if margv:
+            res = ctx.lockstep("tls", hb, allc, timeout=1500, impl_env=env)
+        else:
+            out, _, _ = ctx.run_lines([hb], [c["ops"][0] for c in allc], timeout=1500, env=env)
+            out += ["crash:harness-died"] * (len(allc) - len(out))
+            res = [(c, [l], [l.partition(" | ")[0]]) for c, l in zip(allc, out)]
         fires = res[-1][1][0]
         res = res[:-1]
         ctx.extra["interposer_fires"] = dict(t.partition("=")[::2] for t in fires.split()[1:])
@@ -376,7 +391,7 @@ def run(ctx: Ctx):
         # ---- recorded finding F20-http: replay its witness; it must still reproduce AND be listed
         wit = http(verify=1, ca="right", sys="empty", scert="wrongname", url="name")
         wl, _, _ = ctx.run_lines([hb], [wit], timeout=300, env=env)
-        wm, _, _ = ctx.run_lines([ctx.model_bin(), "tls"], [wit], timeout=60)
+        wm = ctx.run_lines(margv, [wit], timeout=60)[0] if margv else [wl[0].partition(" | ")[0]] if wl else []
         reproduces = bool(wl) and parse_line(wl[0]).get("connected") == "1"
         model_says = bool(wm) and parse_line(wm[0]).get("connected") == "1"
         ctx.extra["finding_F20_http"] = {"witness": wit, "reproduces": reproduces, "model_predicts": model_says, "cells_counted_under_it": len(finding_cells)}
